@@ -52,7 +52,8 @@ def plan(tier, seed):
 def floors(tier):
     return {'evaluations': 20000, 'distinct_nontrivial': 3000, 'strict_trees_checked': 8000,
             'tolerant_trees_checked': 15000, 'make_node_span_in_input': 50000, 'nodes_checked': 100000,
-            'histkeys:adjacent_pair': 25, 'hist:workload:custom-docs': 500}
+            'histkeys:adjacent_pair': 25, 'hist:workload:custom-docs': 500,
+            'new_style_verbatim_env_nodes': 100}
 
 
 def setup(rec):
@@ -97,6 +98,8 @@ def check_nesting(n, lo, hi, L, rec, strict, s, path):
     rec.monitor('nodes_checked')
     k = canon.kind(n)
     rec.hist('node_kind', k)
+    if k == 'env' and n.environmentname == 'vcode':
+        rec.monitor('new_style_verbatim_env_nodes')
     if strict:
         err = check_content(n, k, s, path)
         if err:
